@@ -209,6 +209,20 @@ Theorem C05_h3_unknown_frame_truncated : forall et el t l rest, is_enc et t -> i
 Proof. exact h3_unknown_frame_truncated. Qed.
 Print Assumptions C05_h3_unknown_frame_truncated.
 
+(* conversely, over ALL byte strings: whenever ParseNext returns a frame, the input was a run of
+   complete skippable frames, then a type and a length in accepted encodings, then - for DATA / HEADERS -
+   exactly the bytes left in the reader, or - for SETTINGS - a payload of the announced length within
+   the cap that the settings loop accepts, followed by the bytes left *)
+Theorem C05_h3_parse_next_ok_inv : forall input f rest, h3_parse_next input = (H3Ok f, rest) ->
+  exists sk et el t l body, skipped_frames sk /\ is_enc et t /\ is_enc el l /\ input = sk ++ et ++ el ++ body /\
+    ((t = h3FrameData /\ f = H3Data l /\ rest = body) \/
+     (t = h3FrameHeaders /\ f = H3Headers l /\ rest = body) \/
+     (t = h3FrameSettings /\ l <= h3SettingsMaxLen /\
+      exists payload s, body = payload ++ rest /\ lenN payload = l /\
+                        h3_parse_settings_payload payload = H3Ok s /\ f = H3Settings s)).
+Proof. exact h3_parse_next_ok_inv. Qed.
+Print Assumptions C05_h3_parse_next_ok_inv.
+
 (* SETTINGS payloads: a sequence of (id, value) pairs in any accepted encoding is accepted iff no
    identifier occurs twice and the two boolean settings (ENABLE_CONNECT_PROTOCOL, H3_DATAGRAM) are
    0 or 1; what is delivered then *)
